@@ -1,7 +1,7 @@
 (* C13  Docstring text reaches the right element intact (comment assembly; the cache part follows with the docstring model). *)
 From Coq Require Import List String Ascii ZArith. Import ListNotations.
 From Coq Require Import List Bool.
-From SV Require Import Lib.Str Model.Types Model.Api Model.Back Proofs.GenProofs.
+From SV Require Import Lib.Str Model.Types Model.Api Model.Back Model.Doc Proofs.GenProofs Proofs.DocProofs.
 
 (* line for line: the comment body is the first line of the (newline-stripped) description followed by every further
    line behind the comment decoration, blank lines included *)
@@ -19,6 +19,25 @@ Proof. exact description_part_single. Qed.
 Theorem C13_no_description_no_comment : forall indent, sds_docstring_description [] indent = [].
 Proof. intros. reflexivity. Qed.
 
+(* the one-entry docstring cache is transparent: for every tree and every sequence of queries (any interleaving of
+   functions, classes and constructors) each answer is the uncached lookup of that query *)
+Theorem C13_cache_transparent : forall root qs, cached_run root init_cstate qs = uncached_run root qs.
+Proof. exact cache_transparent. Qed.
+
+Theorem C13_cache_coherent : forall root qs st, coherent root st -> cached_run root st qs = uncached_run root qs.
+Proof. exact cache_coherent. Qed.
+
+(* recorded finding lookup_same_name: function foo in module foo receives the module's docstring *)
+Theorem C13_lookup_same_name_refuted :
+  let f := GNode (K"foo") GFunction (Some (K"Function foo doc.")) [] in
+  let m := GNode (K"foo") GModule (Some (K"Module foo doc.")) [f] in
+  let root := GNode (K"pkg") GModule None [m] in
+  lookup_doc root (K"pkg.foo.foo") = Ok (Some (K"Module foo doc.")).
+Proof. exact lookup_same_name_refuted. Qed.
+
+Print Assumptions C13_cache_transparent.
+Print Assumptions C13_cache_coherent.
+Print Assumptions C13_lookup_same_name_refuted.
 Print Assumptions C13_description_lines.
 Print Assumptions C13_single_line.
 Print Assumptions C13_no_description_no_comment.
